@@ -110,6 +110,6 @@ func vh_c27_nestun1_q() { vc27("&(", "a)", 2) }
 func vh_c27_nestun2_q() { vc27("-(", "a)", 2) }
 func vh_c27_nestun3_q() { vc27("*(", "a)", 2) }
 func vh_c27_callun_q()  { vc27("(", "a)(a)", 2) }
-func vh_c27_free_t()   { vc27("", "", 4) }
+func vh_c27_free_t()   { vc27("", "", 3) }
 func vh_c27_binary_t() { vc27("a ", " b", 3) }
 func vh_c27_prec_t()   { vc27("a+b", "c*d", 3) }
